@@ -33,7 +33,7 @@ type c05Rng struct {
 
 // c05Fld is one struct field: name words, type, tag options.
 type c05Fld struct {
-	W    []string `json:"w"`              // words of the name; Go name = Title(words)+index
+	W    []string `json:"w"` // words of the name; Go name = Title(words)+index
 	T    c05Typ   `json:"t"`
 	Anon bool     `json:"anon,omitempty"` // embedded
 	Tag  string   `json:"tag,omitempty"`  // tag key ("json", "form", ...); "" = untagged; "-other" = tagged for another source only
@@ -47,11 +47,11 @@ type c05Fld struct {
 
 // c05JV is a JSON document node.
 type c05JV struct {
-	T string   `json:"t"`           // null num str bool obj arr
-	S string   `json:"s,omitempty"` // number text or string content
-	B bool     `json:"b,omitempty"`
-	M []c05KV  `json:"m,omitempty"` // object members in order (duplicates possible)
-	L []c05JV  `json:"l,omitempty"`
+	T string  `json:"t"`           // null num str bool obj arr
+	S string  `json:"s,omitempty"` // number text or string content
+	B bool    `json:"b,omitempty"`
+	M []c05KV `json:"m,omitempty"` // object members in order (duplicates possible)
+	L []c05JV `json:"l,omitempty"`
 }
 
 type c05KV struct {
@@ -59,10 +59,10 @@ type c05KV struct {
 	V c05JV  `json:"v"`
 }
 
-func c05Num(s string) c05JV  { return c05JV{T: "num", S: s} }
-func c05Str(s string) c05JV  { return c05JV{T: "str", S: s} }
-func c05Bool(b bool) c05JV   { return c05JV{T: "bool", B: b} }
-func c05Null() c05JV         { return c05JV{T: "null"} }
+func c05Num(s string) c05JV   { return c05JV{T: "num", S: s} }
+func c05Str(s string) c05JV   { return c05JV{T: "str", S: s} }
+func c05Bool(b bool) c05JV    { return c05JV{T: "bool", B: b} }
+func c05Null() c05JV          { return c05JV{T: "null"} }
 func c05Obj(m ...c05KV) c05JV { return c05JV{T: "obj", M: m} }
 func c05Arr(l ...c05JV) c05JV { return c05JV{T: "arr", L: l} }
 
